@@ -32,7 +32,9 @@ const (
 func rcVariants() []RCCase {
 	var out []RCCase
 
-	add := func(name, content string) { out = append(out, RCCase{Part: "redis-credentials", Variant: name, Content: content}) }
+	add := func(name, content string) {
+		out = append(out, RCCase{Part: "redis-credentials", Variant: name, Content: content})
+	}
 
 	add("complete-new-version", rcValidB)
 
